@@ -533,6 +533,7 @@ def run_t5(repo: Repo, res: Result) -> None:
             where(m, m.node),
             kind="effect",
         )
+    run_t5_names(repo, res)
     # every evaluation runs the whole pipeline afresh: a second evaluation of the same rule object converts, asks and judges
     # against *its* evaluable
     from .tables import run_twice
@@ -649,6 +650,107 @@ def run_t5(repo: Repo, res: Result) -> None:
         res.add("C01.T5", f"{aa.relpath}::{aa.qualname}::alias rewrite [{tag} anything: question]", ok, f"'should not {tag} anything' asks {sorted(asked)}" + ("" if ok else ", expected the 'other' question only (neg(any edge))"), where(aa, aa.node), kind="decision-table")
 
 
+# the public vocabulary that names modules (RuleSubject / RuleObject) and the methods that announce rule objects
+NAMING_METHODS = ("are_named", "are_sub_modules_of", "have_name_matching", "have_name_containing")
+OBJECT_INTRODUCERS = {
+    "import_modules_that": True, "be_imported_by_modules_that": False,
+    "import_modules_except_modules_that": True, "be_imported_by_modules_except_modules_that": False,
+}
+SUBJECT_NAME, OBJECT_NAME = "subjectpkg.subjectmod", "objectpkg.objectmod"
+
+
+def _mentions(v, name: str, depth: int = 0) -> bool:
+    """Does the string constant `name` occur in the derivation of a value (elements of collections, alternatives, fields)?"""
+    from .absint import Alt, Tup
+
+    if depth > 6:
+        return False
+    if isinstance(v, Const):
+        return v.value == name
+    if isinstance(v, Alt):
+        return any(_mentions(o, name, depth + 1) for _g, o in v.options)
+    if isinstance(v, Coll):
+        return any(_mentions(x, name, depth + 1) for x, g in v.entries if g != FALSE)
+    if isinstance(v, DictV):
+        return any(_mentions(k, name, depth + 1) or _mentions(x, name, depth + 1) for k, x, g in v.entries if g != FALSE)
+    if isinstance(v, Tup):
+        return any(_mentions(x, name, depth + 1) for x in v.items)
+    if isinstance(v, Inst):
+        return any(_mentions(x, name, depth + 1) for x in v.fields.values())
+    needle = ("const", repr(name))
+    return any(st == needle for st in subterms(term_of(v)))
+
+
+def fluent_names_run(repo: Repo, naming: str, introducer: str):
+    """Rule().modules_that().<naming>(SUBJECT_NAME).should().<introducer>().<naming>(OBJECT_NAME).assert_applies(evaluable), interpreted:
+    (interpreter, first module requirement the rule builds, the configuration object at the time the names were given)."""
+    from .tables import _find_config, _requirement_events, _rule_class, _scenario_interp
+
+    I = _scenario_interp(repo)
+    rule = I.instantiate(_rule_class(repo), [], {}, None, None)
+    if not isinstance(rule, Inst):
+        raise AnalysisError("Rule() could not be instantiated by the interpreter")
+    _cfg_name, cfg = _find_config(rule)
+    cur = rule
+    for meth, args in (("modules_that", []), (naming, [Const(SUBJECT_NAME)]), ("should", []), (introducer, []), (naming, [Const(OBJECT_NAME)])):
+        nxt = I.call_method(cur, meth, args)
+        cur = nxt if isinstance(nxt, Inst) else cur  # the fluent methods return the rule (or whatever object continues the sentence)
+    n_before = len(I.events)
+    I.call_method(cur, "assert_applies", [Sym(("root", "evaluable"), EVALUABLE_CLS)])
+    probe = run_scenario(repo, Scenario("should", False, True))
+    mr_cls = probe.modreq_new[0].result.cls if probe.modreq_new else None
+    news = [e for e in I.events[n_before:] if e.kind == "new" and isinstance(e.result, Inst) and mr_cls is not None and e.result.cls is mr_cls]
+    return I, (news[0] if news else None), cfg
+
+
+def run_t5_names(repo: Repo, res: Result) -> None:
+    """Names given after `modules_that()` are the rule's subjects, names given after an object-introducing method its objects:
+    the first module requirement an evaluation builds receives them on these sides (whatever state the rule keeps them in)."""
+    rule = repo.cls(RULE, "Rule")
+    for naming in NAMING_METHODS:
+        m = repo.lookup_method(rule, naming)
+        if m is None:
+            continue
+        bad, unseen, loc = [], [], None
+        for intro, imp in OBJECT_INTRODUCERS.items():
+            if repo.lookup_method(rule, intro) is None:
+                continue
+            I, ev, cfg = fluent_names_run(repo, naming, intro)
+            if ev is None:
+                unseen.append(f"{intro}: no module requirement is built")
+                continue
+            args = bound_args(repo, ev)
+            if len(args) < 2:
+                unseen.append(f"{intro}: constructor arguments not bound")
+                continue
+            s_in = (_mentions(args[0], SUBJECT_NAME), _mentions(args[1], SUBJECT_NAME))
+            o_in = (_mentions(args[0], OBJECT_NAME), _mentions(args[1], OBJECT_NAME))
+            if s_in == (True, False) and o_in == (False, True):
+                continue
+            if s_in[1] or o_in[0]:
+                what = []
+                if s_in[1]:
+                    what.append(f"the names given after modules_that() reach the requirement as rule objects{'' if s_in[0] else ' only'}")
+                if o_in[0]:
+                    what.append(f"the names given after {intro}() reach it as rule subjects{'' if o_in[1] else ' only'}")
+                bad.append(f"`modules_that().{naming}(a).should().{intro}().{naming}(b)`: " + " and ".join(what))
+                # the store that put a name on the wrong side of the configuration (diagnostics)
+                for fld, ws in cfg.late_writes.items():
+                    for value, fi, node in ws:
+                        if fi is not None and node is not None and loc is None and ((fld == "modules_to_check_against" and _mentions(value, SUBJECT_NAME)) or (fld == "modules_to_check" and _mentions(value, OBJECT_NAME))):
+                            loc = (fi, node)
+            else:
+                unseen.append(f"{intro}: the given names are not visible in the requirement's arguments")
+        fi, node = loc if loc is not None else (m, m.node)
+        cons = f"{fi.relpath}::{fi.qualname}::names given to {naming}() [subject / object side]"
+        if bad:
+            res.add("C01.T5", cons, False, "; ".join(bad[:2]) + ": subject and object of the rule are confused", where(fi, node), kind="effect")
+        elif unseen and len(unseen) == len(OBJECT_INTRODUCERS):
+            res.observe(f"C01.T5: the flow of the names given to {naming}() into the module requirement could not be followed ({unseen[0]})")
+        else:
+            res.add("C01.T5", cons, True, f"names given to {naming}() after modules_that() become the requirement's subjects, after an object-introducing method its objects", where(m, m.node), kind="effect")
+
+
 def _plain_name(t) -> bool:
     """`<element of the subjects>.identifier` (or another attribute of it): a whole module name."""
     return isinstance(t, tuple) and len(t) == 3 and t[0] == "attr" and isinstance(t[1], tuple) and t[1] and t[1][0] == "elem"
@@ -713,7 +815,10 @@ def run_t6(repo: Repo, res: Result) -> None:
             continue
         want = atom(f"truthy({run.violations.cls.name}#{run.violations.serial})")
         got = f_or([v.guard for v in live])
-        if not _same(got, want):
+        # an exception of another kind that leaves the evaluation earlier (validation of the configuration under a condition the
+        # interpreter keeps symbolic) is no verdict: the verdict is judged on the evaluations that get as far as the matcher
+        earlier = f_or([e.guard for e in run.other_raises if _sat(e.guard)])
+        if not _same(got, want) and not (earlier != FALSE and _same(got, f_and([want, f_not(earlier)]))):
             bad.append(f"'{sc.name}': AssertionError is raised under `{show(got)[:120]}` instead of exactly when the violations found are truthy")
         for fi, node in run.interp.try_nodes:
             if not fi.module.name.startswith("pytestarch.eval_structure"):
@@ -782,11 +887,16 @@ def run(repo: Repo) -> Result:
     res.not_decided = "that the three graph searches compute the right set on every graph (needs execution / loop unrolling over graphs)."
     res.trusted_base = ["LANGUAGE_DEFINTION.md (cross-checked with a frozen copy in rules/tables.py)", "the abstract interpreter rules/absint.py (evaluation rules for the Python subset used by the pipeline)", "engine resolver, CFG path conditions and formula evaluator"]
     markers, sem = parse_language_doc(repo)
-    run_t1(repo, res, None, markers)
-    run_t2_t3(repo, res, None, sem)
-    run_t4(repo, res, None)
-    run_t5(repo, res)
-    run_t6(repo, res)
+    # a table that cannot be extracted (e.g. because every evaluation of a legal rule raises before it reaches the matcher - which
+    # T1 reports) leaves its own rule undecided; it must not hide the findings of the other rules
+    for rule_id, fn, args in (
+        ("C01.T1", run_t1, (repo, res, None, markers)), ("C01.T2", run_t2_t3, (repo, res, None, sem)), ("C01.T4", run_t4, (repo, res, None)),
+        ("C01.T5", run_t5, (repo, res)), ("C01.T6", run_t6, (repo, res)),
+    ):
+        try:
+            fn(*args)
+        except AnalysisError as e:
+            res.undecide(rule_id, f"{RULE}::Rule.assert_applies::interpreted pipeline", f"table extraction failed: {e}")
     notes = sorted({n for sc in legal_scenarios() for n in run_scenario(repo, sc).interp.notes})
     if notes:
         res.observe("constructs on the evaluated pipeline that the interpreter walked without a model: " + "; ".join(notes[:8]))
